@@ -115,6 +115,38 @@ def register(M):
             return Obj('vec', items=tuple(items), ty=dty)
         raise Inconclusive('collect into %s' % dty)
 
+    @reg('iter::once')
+    def _(ex, info, a, dty):
+        return mkiter([a[0]], dty)
+
+    @reg('iter::empty')
+    def _(ex, info, a, dty):
+        return mkiter([], dty)
+
+    @reg('Iterator::zip')
+    def _(ex, info, a, dty):
+        x, y = seq_of(ex, a[0]), seq_of(ex, a[1])
+        return mkiter([Adt('tuple', {(None, 0): p, (None, 1): q}) for p, q in zip(x, y)], dty)
+
+    @reg('Iterator::take', 'Iterator::skip')
+    def _(ex, info, a, dty):
+        n = conc(z3.simplify(a[1]))
+        if n is None:
+            raise Inconclusive('take/skip with a symbolic count')
+        items = seq_of(ex, a[0])
+        return mkiter(items[:n] if info['method'] == 'take' else items[n:], dty)
+
+    @reg('Iterator::for_each')
+    def _(ex, info, a, dty):
+        for it in seq_of(ex, a[0]):
+            ex.call_value(a[1], [it])
+        return UNIT
+
+    @reg('Iterator::last')
+    def _(ex, info, a, dty):
+        items = seq_of(ex, a[0])
+        return M.some(dty, items[-1]) if items else M.none(dty)
+
     @reg('Iterator::count')
     def _(ex, info, a, dty):
         return bv(len(seq_of(ex, a[0])))
@@ -192,8 +224,39 @@ def register(M):
 
     @reg('Vec::len', '<impl>::len')
     def _(ex, info, a, dty):
+        c0, p0 = ex.deref(a[0])
+        v0 = ex.read_path(c0, p0)
+        if isinstance(v0, Lazy):
+            n = z3.BitVec(v0.name + '.len', 64)      # length of an unconstrained vector: one symbolic value
+            return n
         cell, path, v = vec_at(ex, a[0])
         return bv(len(v.items))
+
+    @reg('Itertools::dedup')
+    def _(ex, info, a, dty):
+        items = seq_of(ex, a[0])
+        out = []
+        for it in items:
+            if out and ex.branch(M.deep_eq(ex, out[-1], it)):
+                continue
+            out.append(it)
+        return mkiter(out, dty)
+
+    @reg('Iterator::filter_map')
+    def _(ex, info, a, dty):
+        out = []
+        for it in seq_of(ex, a[0]):
+            r = ex.materialize(ex.call_value(a[1], [it]))
+            if M.is_some(ex, r):
+                out.append(M.payload(ex, r))
+        return mkiter(out, dty)
+
+    @reg('Iterator::sum')
+    def _(ex, info, a, dty):
+        s = bv(0)
+        for it in seq_of(ex, a[0]):
+            s = s + ex.materialize(it)
+        return s
 
     @reg('Vec::is_empty', '<impl>::is_empty')
     def _(ex, info, a, dty):
